@@ -40,9 +40,9 @@ def run(ctx):
                        "and counted under the subject and under ill-conditioned/*)")
     req = [(s, None, 30) for s in SUBJECTS]
     req += [(s, "lattice", 3) for s in SUBJECTS] + [(s, "random", 3) for s in SUBJECTS]
-    summ = ctx.run_events(bins["asan"], ctx.n(8400, 210000), require=req, timeout=3600)
+    summ = ctx.run_events(bins["asan"], ctx.n(8400, 126000), require=req, timeout=3600)
     if ctx.thorough:
-        ctx.run_events(bins["O2"], 210000, require=[], timeout=3600)
+        ctx.run_events(bins["O2"], 126000, require=[], timeout=3600)
     refused = sum(s["skipped"] for (a, _), s in summ.items() if a.startswith("few-points/refused"))
     ctx.require(refused > 0, "no few-points case was refused or observed")
     ctx.assumptions += ["relative error is measured against max|y| of the training values (the norm of the right-hand side of the dual system)",
